@@ -65,7 +65,9 @@ func c02Alphabet() []c02Letter {
 			return altSigned(k, ref.Report{ShortID: id, Timeslot: slot, Power: 40}, 1)
 		}},
 		{"B", func(k ref.Key, id, slot uint32, c uint64) ref.Report { return ref.SignedReport(k, id, slot, 41) }},
-		{"limit", func(k ref.Key, id, slot uint32, c uint64) ref.Report { return ref.SignedReport(k, id, slot, limitOf(c)) }},
+		{"limit", func(k ref.Key, id, slot uint32, c uint64) ref.Report {
+			return ref.SignedReport(k, id, slot, limitOf(c))
+		}},
 		{"limit+1", func(k ref.Key, id, slot uint32, c uint64) ref.Report {
 			return ref.SignedReport(k, id, slot, limitOf(c)+1)
 		}},
@@ -102,7 +104,7 @@ func TestC02ExhaustiveShortSequences(t *testing.T) {
 	ev.Rule("C02(i): EXHAUSTIVE - all 1555 sequences of length 0..4 (thorough tier: all 9331 of length 0..5) over the alphabet {A, A' (same content, second valid signature), B, limit, limit+1, negative} for one slot, each on a fresh (device, slot); oracle f(S) on the set of distinct datagrams + full-state comparison with the sequential model after every datagram")
 	const capacity = 1000 // limit 1350
 	s, ids, keys := c02Fixture(t, []uint64{capacity, capacity, capacity, capacity, capacity, capacity, capacity, capacity, capacity})
-	defer s.cleanup()
+	defer func() { s.cleanup() }()
 	alpha := c02Alphabet()
 	var seqs [][]int
 	maxLen := 4
@@ -123,9 +125,19 @@ func TestC02ExhaustiveShortSequences(t *testing.T) {
 	if (maxLen == 4 && len(seqs) != 1555) || (maxLen == 5 && len(seqs) != 9331) {
 		t.Fatalf("harness: %d sequences", len(seqs))
 	}
-	// slots 0..4031 of three devices give 12096 fresh (device, slot) pairs
+	// slots 0..4031 of three devices give 12096 fresh (device, slot) pairs; a
+	// fresh server is taken every 2000 sequences (a server of the test build
+	// ends the process after 120 s of life, which a loaded machine can reach
+	// within one long enumeration)
 	next := 0
-	for _, seq := range seqs {
+	for si, seq := range seqs {
+		if si > 0 && si%2000 == 0 {
+			s.crossCheckAPI()
+			s.close()
+			s.cleanup()
+			s, ids, keys = c02Fixture(t, []uint64{capacity, capacity, capacity, capacity, capacity, capacity, capacity, capacity, capacity})
+			next = 0
+		}
 		dev := next / 4032
 		slot := uint32(next % 4032)
 		next++
